@@ -329,7 +329,12 @@ def parse_set_cookie_headers(headers: Sequence[str]) -> list[tuple[str, Morsel[s
                 # Process as attribute
                 if current_morsel is not None:
                     attr_lower_key = lower_key[1:]
-                    if attr_lower_key in _COOKIE_KNOWN_ATTRS:
+                    # Only valued attributes have a "$" form ($Path, $Domain):
+                    # "$Secure" is an unknown attribute, not a way to clear a flag
+                    if (
+                        attr_lower_key in _COOKIE_KNOWN_ATTRS
+                        and attr_lower_key not in _COOKIE_BOOL_ATTRS
+                    ):
                         current_morsel[attr_lower_key] = value or ""
             elif lower_key in _COOKIE_KNOWN_ATTRS:
                 if not morsel_seen:
